@@ -218,9 +218,22 @@ def campaign(cr: CheckRun, cfgname: str, items, tag: str) -> None:
 def _shape(clause: str, acts, line: int) -> str:
     """Structural class of a violation for known-finding matching: event-clause failures that occur after a
     physical Release in the same trace are one class (the Rust matrix emits no release event)."""
+    tags = []
     if clause in ("ReleaseFollows", "Cadence", "EventOrder", "ReleaseJustified") and any(a["ev"] == "Release" for a in acts[: max(0, line - 3)]):
-        return "after-physical-release"
-    return "general"
+        tags.append("after-physical-release")
+    # a key that is already held was reported pressed once more somewhere in this history (the Rust matrix restarts its debounce)
+    down = set()
+    for a in acts:
+        if a["ev"] == "Press":
+            if a["k"] in down:
+                tags.append("redundant-press")
+                break
+            down.add(a["k"])
+        elif a["ev"] == "Release":
+            down.discard(a["k"])
+        elif a["ev"] == "Inject":
+            (down.discard if a.get("rel") else down.add)(a["k"])
+    return "+".join(tags) or "general"
 
 
 def _acts(v) -> List[Dict[str, Any]]:
@@ -251,6 +264,10 @@ def random_acts(seed: int, n: int, length: int, high: bool, slow: bool) -> List[
                     k = rnd.choice(up)
                     down.add(k)
                     acts.append({"ev": "Press", "k": k})
+            elif r < 0.145 and down and t % 4 == 2:
+                # the host reports a key that is already held once more (host auto-repeat, a front end re-applying its key set
+                # every step): not an input change - the key stays where it is in its debounce / repeat cycle
+                acts.append({"ev": "Press", "k": rnd.choice(sorted(down))})
             elif r < 0.20:
                 if down and not no_release:
                     k = rnd.choice(sorted(down))
